@@ -9,12 +9,18 @@ import (
 	"fmt"
 	"math"
 	"sort"
+	"strconv"
 	"strings"
+	"sync"
+	"sync/atomic"
+	"time"
 
 	"github.com/deckhouse/deckhouse/pkg/log"
+	"github.com/prometheus/client_golang/prometheus"
 
 	metricstorage "github.com/flant/shell-operator/pkg/metric_storage"
 	"github.com/flant/shell-operator/pkg/metric_storage/operation"
+	"github.com/flant/shell-operator/pkg/metric_storage/vault"
 )
 
 func init() { suites["c16"] = runC16 }
@@ -67,11 +73,74 @@ type c16World struct {
 	owner  map[string]string // live grouped series "name|labels" -> group
 	gfam   map[string]string // metric name -> "grouped" | "ungrouped"
 	ushape map[string]string // ungrouped metric name -> label names
+	gate   *c16Gate
+	fresh  int // counter for metric names never used before in this case
+}
+
+// c16Gate is the prometheus.Registerer handed to the storage (ungrouped vecs) and to the grouped vault:
+// while armed, a goroutine that arrives in Register() reports it and waits until the coordinator of the
+// concurrent step opens the gate — this holds the first registration of a metric name open while the
+// other hooks of the step are started (check-then-act windows around Register become reachable).
+// Unarmed it is a plain pass-through.
+type c16Gate struct {
+	inner   prometheus.Registerer
+	mu      sync.Mutex
+	release chan struct{} // nil = not armed
+	entered chan struct{}
+	waits   atomic.Int64
+}
+
+func (g *c16Gate) Register(c prometheus.Collector) error {
+	g.mu.Lock()
+	rel, ent := g.release, g.entered
+	g.mu.Unlock()
+	if rel != nil {
+		g.waits.Add(1)
+		select {
+		case ent <- struct{}{}:
+		default:
+		}
+		select {
+		case <-rel:
+		case <-time.After(20 * time.Second): // never hang on the gate itself
+		}
+	}
+	return g.inner.Register(c)
+}
+
+func (g *c16Gate) MustRegister(cs ...prometheus.Collector) {
+	for _, c := range cs {
+		if err := g.Register(c); err != nil {
+			panic(err)
+		}
+	}
+}
+
+func (g *c16Gate) Unregister(c prometheus.Collector) bool { return g.inner.Unregister(c) }
+
+func (g *c16Gate) arm() {
+	g.mu.Lock()
+	g.release, g.entered = make(chan struct{}), make(chan struct{}, 64)
+	g.mu.Unlock()
+}
+
+func (g *c16Gate) open() {
+	g.mu.Lock()
+	if g.release != nil {
+		close(g.release)
+	}
+	g.release, g.entered = nil, nil
+	g.mu.Unlock()
 }
 
 func newC16World(c *Case) *c16World {
 	w := &c16World{in: NewInterner(), c: c, owner: map[string]string{}, gfam: map[string]string{}, ushape: map[string]string{}}
 	w.ms = metricstorage.NewMetricStorage(context.Background(), "", true, log.NewNop())
+	w.gate = &c16Gate{inner: w.ms.Registry}
+	w.ms.Registerer = w.gate
+	if gv, ok := w.ms.Grouped().(*vault.GroupedVault); ok {
+		gv.SetRegisterer(w.gate)
+	}
 	w.in.Id("hook") // the label name `hook` is id 1
 	return w
 }
@@ -202,12 +271,121 @@ func (w *c16World) send(hook string, ops []c16Op) {
 	}
 }
 
+// c16Batch is one batch of a concurrent step.
+type c16Batch struct {
+	hook string
+	ops  []c16Op
+}
+
+// c16Window is how long the coordinator of a concurrent step waits for a freshly started SendBatch to
+// either finish or arrive in Register() before it starts the next one. It is only a scheduling aid: the
+// step is judged against every linearisation whatever the real interleaving was.
+const c16Window = 12 * time.Millisecond
+
+// sendPar sends the batches CONCURRENTLY (one goroutine per batch, started in startOrder). The gate holds
+// every first registration of a metric open until all goroutines were started, so that the other hooks
+// meet the half-finished registration. Observation: the return value of every call and the scrape after
+// all calls returned. Oracle: some linearisation of the batches through the reference registry shows
+// exactly this.
+func (w *c16World) sendPar(bs []c16Batch, startOrder []int) {
+	parsed := make([][]operation.MetricOperation, len(bs))
+	for i, b := range bs {
+		var sb strings.Builder
+		for _, o := range b.ops {
+			sb.WriteString(o.jsonLine() + "\n")
+		}
+		p, err := operation.MetricOperationsFromBytes([]byte(sb.String()))
+		if err != nil {
+			w.c.Op("parse", "err")
+			return
+		}
+		parsed[i] = p
+	}
+	for _, b := range bs {
+		for _, o := range b.ops {
+			w.c.Op(w.opLine(o), "ok")
+		}
+		var order []string
+		seen := map[string]bool{}
+		for _, o := range b.ops {
+			if o.Group != "" && !seen[o.Group] {
+				seen[o.Group] = true
+				order = append(order, fmt.Sprint(w.id(o.Group)))
+			}
+		}
+		w.c.Op(fmt.Sprintf("pbatch hooklabel=%d hook=%d order=%s", w.id("hook"), w.id(b.hook), joinStrs(order)), "ok")
+	}
+	errs := make([]int, len(bs))
+	done := make([]chan struct{}, len(bs))
+	for i := range done {
+		done[i] = make(chan struct{})
+	}
+	w.gate.arm()
+	w.gate.mu.Lock()
+	ent := w.gate.entered
+	w.gate.mu.Unlock()
+	before := w.gate.waits.Load()
+	for _, i := range startOrder {
+		go func(i int) {
+			defer close(done[i])
+			defer func() {
+				if p := recover(); p != nil {
+					errs[i] = 2
+				}
+			}()
+			if e := w.ms.SendBatch(parsed[i], map[string]string{"hook": bs[i].hook}); e != nil {
+				errs[i] = 1
+			}
+		}(i)
+		select {
+		case <-done[i]:
+		case <-ent:
+		case <-time.After(c16Window):
+		}
+	}
+	held := w.gate.waits.Load() - before
+	w.gate.open()
+	hang := false
+	for i := range done {
+		select {
+		case <-done[i]:
+		case <-time.After(30 * time.Second):
+			hang = true
+		}
+	}
+	if held >= 2 {
+		w.c.Note("concurrent:2+-registrations-held-at-once")
+	} else if held == 1 {
+		w.c.Note("concurrent:1-registration-held")
+	} else {
+		w.c.Note("concurrent:no-registration")
+	}
+	if hang {
+		w.c.Op("psend", "hang")
+		return
+	}
+	var es []string
+	for _, e := range errs {
+		es = append(es, fmt.Sprint(e))
+	}
+	ans := Catch(func() string { return fmt.Sprintf("errs=%s %s", strings.Join(es, ","), w.dump()) })
+	w.c.Op("psend", ans)
+	f := strings.SplitN(ans, " ", 2)
+	if len(f) == 2 {
+		w.c.Oracle(fmt.Sprintf("psend %s dump=%s", f[0], f[1]))
+	} else {
+		w.c.Oracle("psend " + ans + " dump=?")
+	}
+}
+
 func ip(i int) *int { return &i }
 
 func labelKey(name string, labels map[string]string, hook string) string {
 	m := map[string]string{}
 	for k, v := range labels {
-		m[k] = v
+		if v != "" { // an empty value is the same series as an absent label
+			m[k] = v
+		}
 	}
 	m["hook"] = hook
 	var ks []string
@@ -227,21 +405,48 @@ func labelKey(name string, labels map[string]string, hook string) string {
 type c16Gen struct {
 	w   *c16World
 	rng *Rng
+	// metric names the grouped operations of the next batches prefer (a concurrent step lets all its
+	// hooks report the same, never used before, names)
+	hotG, hotC string
 }
 
-var c16Groups = []string{"ga", "gb", "gc"}
-var c16Hooks = []string{"h1", "h2", "h3"}
+var c16Groups = []string{"ga", "gb", "gc", "gd"}
+var c16Hooks = []string{"h1", "h2", "h3", "h4"}
+
+// label names on both sides of `hook` in the collectors' sorted label-name list, ONE pool of values for
+// every name (so equal values occur under different names), and explicit empty values.
+var c16LabelKeys = []string{"a", "b", "x", "y"}
+var c16LabelVals = []string{"1", "2", "3"}
+
+const c16HookBit = 16
+
+func (g *c16Gen) shape() int {
+	s := 0
+	for i := range c16LabelKeys {
+		if g.rng.Chance(30) {
+			s |= 1 << i
+		}
+	}
+	if g.rng.Chance(15) {
+		s |= c16HookBit
+	}
+	return s
+}
 
 func (g *c16Gen) labels(shape int) map[string]string {
 	rng := g.rng
 	m := map[string]string{}
-	if shape&1 != 0 {
-		m["x"] = PickOne(rng, []string{"1", "2", "3"})
+	for i, k := range c16LabelKeys {
+		if shape&(1<<i) == 0 {
+			continue
+		}
+		m[k] = PickOne(rng, c16LabelVals)
+		if rng.Chance(10) {
+			m[k] = ""
+			g.w.c.Note("label:empty-value")
+		}
 	}
-	if shape&2 != 0 {
-		m["y"] = PickOne(rng, []string{"a", "b"})
-	}
-	if shape&4 != 0 {
+	if shape&c16HookBit != 0 {
 		m["hook"] = "zz" // overridden by the hook label
 	}
 	return m
@@ -249,14 +454,14 @@ func (g *c16Gen) labels(shape int) map[string]string {
 
 // batch generates one batch for a hook that stays outside the recorded finding classes
 // (cross-group series, grouped/ungrouped name clash, ungrouped label-shape change, type clash).
-func (g *c16Gen) batch(hook string) ([]c16Op, bool) {
+func (g *c16Gen) batch(hook string, pool []string) ([]c16Op, bool) {
 	rng, w := g.rng, g.w
 	n := rng.Range(1, 6)
 	var ops []c16Op
 	pending := map[string]string{} // series written by this batch -> group
-	groupsHere := []string{PickOne(rng, c16Groups)}
+	groupsHere := []string{PickOne(rng, pool)}
 	if rng.Chance(40) {
-		groupsHere = append(groupsHere, PickOne(rng, c16Groups))
+		groupsHere = append(groupsHere, PickOne(rng, pool))
 	}
 	for i := 0; i < n; i++ {
 		k := rng.Intn(100)
@@ -268,10 +473,13 @@ func (g *c16Gen) batch(hook string) ([]c16Op, bool) {
 			if isAdd {
 				name = PickOne(rng, []string{"gc1", "gc2_total"})
 			}
+			if hot := map[bool]string{true: g.hotC, false: g.hotG}[isAdd]; hot != "" && rng.Chance(60) {
+				name = hot
+			}
 			var lab map[string]string
 			okp := false
 			for try := 0; try < 6 && !okp; try++ {
-				lab = g.labels(rng.Intn(8))
+				lab = g.labels(g.shape())
 				key := labelKey(name, lab, hook)
 				o1, live := w.owner[key]
 				o2, pend := pending[key]
@@ -314,9 +522,10 @@ func (g *c16Gen) batch(hook string) ([]c16Op, bool) {
 			shape, seen := w.ushape[name]
 			var lab map[string]string
 			if seen {
-				lab = g.labels(int(shape[0] - '0'))
+				sh, _ := strconv.Atoi(shape)
+				lab = g.labels(sh)
 			} else {
-				s := rng.Intn(8)
+				s := g.shape()
 				w.ushape[name] = fmt.Sprint(s)
 				lab = g.labels(s)
 			}
@@ -401,7 +610,7 @@ func (g *c16Gen) commit(hook string, ops []c16Op) {
 }
 
 func runC16(r *Run) {
-	r.Rule = "histories of 1..8 batches sent by 3 hooks through the real operation parser + MetricStorage.SendBatch on a private registry, observed by Gatherer.Gather() after every batch: batches of 1..6 operations mixing up to 2 of 3 groups with ungrouped operations; metric names shared between groups (different label values), label sets of 8 shapes incl. a `hook` label that must be overridden, action/value and shortcut (`add`/`set`) forms, integer and half-fractional values, explicit expire at any position, 14% of the batches carry one invalid operation (10 kinds) at a random position. Generators stay outside the recorded finding classes (same series written by two groups, name used grouped and ungrouped, ungrouped label-name change, one name with two types), which are replayed as separate known cases. Non-trivial: >= 2 batches, at least one grouped and one valid batch; distinct = distinct op-line sequences."
+	r.Rule = "histories of 1..8 steps by 4 hooks through the real operation parser + MetricStorage.SendBatch on a private registry, observed by Gatherer.Gather() after every step. A step is one batch, or (22%) a CONCURRENT step: 2..4 batches of different hooks, each with its own group(s), sent by one goroutine each in a random start order while a gated Registerer (installed as MetricStorage.Registerer and as the vault's registerer) holds every first registration of a metric open until all calls were started; 70% of the concurrent steps let all their hooks report the same never-used grouped gauge and counter names. A concurrent step is judged against EVERY linearisation of its batches through the reference registry (return value of each call + scrape after all returned). Batches of 1..6 operations mixing up to 2 of 4 groups with ungrouped operations; metric names shared between groups; label sets over the names a, b, x, y (two sorting before `hook`, two after; each present with 30%) with ONE pool of 3 values for all names (equal values under different names), 10% explicit empty values, a `hook` label that must be overridden (15%); action/value and shortcut (`add`/`set`) forms, integer and half-fractional values, explicit expire at any position, 14% of the batches carry one invalid operation (10 kinds) at a random position. Generators stay outside the recorded finding classes (same series written by two groups, name used grouped and ungrouped, ungrouped label-name change, one name with two types), which are replayed as separate known cases. Non-trivial: >= 2 batches, at least one grouped and one valid batch; distinct = distinct op-line sequences."
 	// ---- corpus: the repaired defects (must now hold) ----
 	r.One(0, func(c *Case, _ *Rng) {
 		c.Desc = "corpus: grouped {\"add\":1} shortcut counts once (was applied twice)"
@@ -422,6 +631,42 @@ func runC16(r *Run) {
 		w := newC16World(c)
 		w.send("h1", []c16Op{{Name: "ug1", Action: "set", Value: ip(4)}, {Name: "gg1", Group: "ga", Action: "set", Value: ip(6), Labels: map[string]string{"x": "1"}}})
 		w.send("h2", []c16Op{{Name: "ug1", Action: "set", Value: ip(10)}, {Name: "zz", Action: "bogus", Value: ip(2)}, {Group: "ga", Action: "expire"}})
+	})
+	r.One(3, func(c *Case, _ *Rng) {
+		c.Desc = "corpus: one name, label sets that differ only in WHICH label is empty (equal values under different label names, both before / both after `hook`), two groups, then each group expires"
+		c.Nontrivial = true
+		w := newC16World(c)
+		w.send("h1", []c16Op{{Name: "gg1", Group: "ga", Action: "set", Value: ip(20), Labels: map[string]string{"a": "1"}}})
+		w.send("h1", []c16Op{{Name: "gg1", Group: "gb", Action: "set", Value: ip(1), Labels: map[string]string{"b": "1"}}})
+		w.send("h1", []c16Op{{Name: "gc1", Group: "ga", Action: "add", Value: ip(3), Labels: map[string]string{"x": "2", "y": ""}},
+			{Name: "gc1", Group: "ga", Action: "add", Value: ip(4), Labels: map[string]string{"y": "2"}},
+			{Name: "gg1", Group: "ga", Action: "set", Value: ip(7), Labels: map[string]string{"a": "1", "b": ""}}})
+		w.send("h1", []c16Op{{Group: "gb", Action: "expire"}})
+		w.send("h1", []c16Op{{Group: "ga", Action: "expire"}})
+	})
+	r.One(4, func(c *Case, _ *Rng) {
+		c.Desc = "corpus: two hooks report the same, new, grouped metric name at the same time (each under its own group)"
+		c.Nontrivial = true
+		w := newC16World(c)
+		w.sendPar([]c16Batch{
+			{"h1", []c16Op{{Name: "gn", Group: "ga", Action: "set", Value: ip(2), Labels: map[string]string{"x": "1"}}}},
+			{"h2", []c16Op{{Name: "gn", Group: "gb", Action: "set", Value: ip(5), Labels: map[string]string{"x": "2"}}}},
+		}, []int{0, 1})
+		w.send("h1", []c16Op{{Group: "ga", Action: "expire"}})
+	})
+	r.One(5, func(c *Case, _ *Rng) {
+		c.Desc = "corpus: three hooks at the same time: new grouped counter + gauge with different label shapes, a new ungrouped counter, one invalid batch"
+		c.Nontrivial = true
+		w := newC16World(c)
+		w.sendPar([]c16Batch{
+			{"h1", []c16Op{{Name: "gcn_total", Group: "ga", Add: ip(3)}, {Name: "uc_total", Action: "add", Value: ip(2)}}},
+			{"h2", []c16Op{{Name: "gcn_total", Group: "gb", Action: "add", Value: ip(1), Labels: map[string]string{"a": "1"}}, {Name: "gn", Group: "gb", Set: ip(9)}, {Name: "uc_total", Action: "add", Value: ip(2)}}},
+			{"h3", []c16Op{{Name: "gn", Group: "gc", Action: "set", Value: ip(4), Labels: map[string]string{"y": "3"}}, {Name: "uc_total", Action: "expire"}}},
+		}, []int{2, 0, 1})
+		w.sendPar([]c16Batch{
+			{"h2", []c16Op{{Group: "gb", Action: "expire"}}},
+			{"h1", []c16Op{{Name: "gn", Group: "ga", Action: "set", Value: ip(6), Labels: map[string]string{"b": "1"}}}},
+		}, []int{0, 1})
 	})
 	// ---- known findings, replayed on every run ----
 	r.One(10, func(c *Case, _ *Rng) {
@@ -493,10 +738,56 @@ func runC16(r *Run) {
 		w := newC16World(c)
 		g := &c16Gen{w: w, rng: rng}
 		nb := rng.Range(1, 8)
-		valid, grouped := 0, 0
+		valid, grouped, conc := 0, 0, 0
 		for b := 0; b < nb; b++ {
+			if rng.Chance(22) {
+				// concurrent step: 2..4 hooks, each with its own group(s), send at the same time
+				k := rng.Range(2, 4)
+				hooks := append([]string{}, c16Hooks...)
+				groups := append([]string{}, c16Groups...)
+				rng.Shuffle(len(hooks), func(i, j int) { hooks[i], hooks[j] = hooks[j], hooks[i] })
+				rng.Shuffle(len(groups), func(i, j int) { groups[i], groups[j] = groups[j], groups[i] })
+				if rng.Chance(70) {
+					w.fresh++
+					g.hotG, g.hotC = fmt.Sprintf("gn%d", w.fresh), fmt.Sprintf("gcn%d_total", w.fresh)
+					c.Note("concurrent:same-new-names")
+				}
+				var bs []c16Batch
+				var inv []bool
+				for i := 0; i < k; i++ {
+					pool := []string{groups[i]}
+					if k == 2 {
+						pool = append(pool, groups[i+2])
+					}
+					ops, invalid := g.batch(hooks[i], pool)
+					bs = append(bs, c16Batch{hooks[i], ops})
+					inv = append(inv, invalid)
+				}
+				g.hotG, g.hotC = "", ""
+				start := make([]int, k)
+				for i := range start {
+					start[i] = i
+				}
+				rng.Shuffle(k, func(i, j int) { start[i], start[j] = start[j], start[i] })
+				w.sendPar(bs, start)
+				for i, bt := range bs {
+					if !inv[i] {
+						valid++
+						g.commit(bt.hook, bt.ops)
+					}
+					for _, o := range bt.ops {
+						if o.Group != "" {
+							grouped++
+							break
+						}
+					}
+				}
+				conc++
+				c.Note(fmt.Sprintf("step:concurrent-%d", k))
+				continue
+			}
 			hook := PickOne(rng, c16Hooks)
-			ops, invalid := g.batch(hook)
+			ops, invalid := g.batch(hook, c16Groups)
 			w.send(hook, ops)
 			if !invalid {
 				valid++
@@ -510,7 +801,7 @@ func runC16(r *Run) {
 			}
 		}
 		c.Note(fmt.Sprintf("batches:%d", nb))
-		c.Nontrivial = nb >= 2 && valid >= 1 && grouped >= 1
+		c.Nontrivial = (nb >= 2 || conc >= 1) && valid >= 1 && grouped >= 1
 	})
 	if r.Thorough() {
 		// exhaustive small scope: every history of 1..2 batches (second batch from the same or another
@@ -526,6 +817,8 @@ func runC16(r *Run) {
 			{Name: "ug1", Action: "set", Value: ip(4)},
 			{Name: "uc1_total", Action: "add", Value: ip(1), Labels: map[string]string{"x": "1"}},
 			{Name: "ug1", Action: "bogus", Value: ip(2)},
+			{Name: "gg1", Group: "ga", Action: "set", Value: ip(9), Labels: map[string]string{"a": "1"}},
+			{Name: "gg1", Group: "gb", Action: "set", Value: ip(1), Labels: map[string]string{"b": "1", "x": ""}},
 		}
 		A := len(alphabet)
 		nb := A + A*A // batches of length 1..2
@@ -555,7 +848,44 @@ func runC16(r *Run) {
 			w.send(second, batch(k%nb))
 			c.Nontrivial = true
 		})
+		// exhaustive concurrent scope: every pair (batch of hook h1 over the ga/ungrouped/invalid part of the
+		// alphabet, batch of hook h2 over the gb/ungrouped/invalid part), batches of 1..2 operations, sent at
+		// the same time on an empty store, both start orders
+		var alA, alB []c16Op
+		for _, o := range alphabet {
+			if o.Group != "gb" {
+				alA = append(alA, o)
+			}
+			if o.Group != "ga" {
+				alB = append(alB, o)
+			}
+		}
+		batchesOf := func(al []c16Op) [][]c16Op {
+			var out [][]c16Op
+			for _, o := range al {
+				out = append(out, []c16Op{o})
+			}
+			for _, o := range al {
+				for _, q := range al {
+					out = append(out, []c16Op{o, q})
+				}
+			}
+			return out
+		}
+		bA, bB := batchesOf(alA), batchesOf(alB)
+		ptotal := len(bA) * len(bB) * 2
+		r.Cases(3000000, ptotal, 0, func(c *Case, _ *Rng) {
+			k := c.Idx - 3000000
+			start := []int{0, 1}
+			if k%2 == 1 {
+				start = []int{1, 0}
+			}
+			k /= 2
+			w := newC16World(c)
+			w.sendPar([]c16Batch{{"h1", bA[k/len(bB)]}, {"h2", bB[k%len(bB)]}}, start)
+			c.Nontrivial = true
+		})
 		r.Exhaust = true
-		r.Extra["exhaustive_scope"] = fmt.Sprintf("all %d histories of 1..2 batches (2nd batch by the same or another hook) of 1..2 operations over a %d-operation alphabet (2 groups sharing 2 names, set/add/shortcut/expire, 2 ungrouped, 1 invalid)", total, A)
+		r.Extra["exhaustive_scope"] = fmt.Sprintf("all %d histories of 1..2 batches (2nd batch by the same or another hook) of 1..2 operations over a %d-operation alphabet (2 groups sharing 2 names, label sets that differ in which label is empty, set/add/shortcut/expire, 2 ungrouped, 1 invalid); all %d concurrent pairs (h1 over the ga part, h2 over the gb part of the alphabet, 1..2 operations each, both start orders) on an empty store", total, A, ptotal)
 	}
 }
